@@ -637,7 +637,7 @@ class C11(FsScenario):
     full_share = 0.2
 
     def filter_for(self, idx, rng):
-        singles = [[c] for c in EVENT_CLASSES + BASE_CLASSES]
+        singles = [[c] for c in EVENT_CLASSES + BASE_CLASSES] + [[]]  # incl. the empty filter, which accepts nothing
         pairs = [[a, b] for i, a in enumerate(EVENT_CLASSES + BASE_CLASSES) for b in (EVENT_CLASSES + BASE_CLASSES)[i + 1:]]
         space = singles + pairs
         k = idx % (len(space) + 30)
